@@ -74,6 +74,8 @@ def extended_defs(nb, staged=True, bunched=True, leadloop=None):
         out += [("FB", d) for d in fragment.F_bunched_new(nb)]
     if staged:
         out += [("FS", d) for d in fragment.staged_merge_family()]
+        # branches that die inside a loop body
+        out += [("FD", d) for d in fragment.kill_in_loop_family()]
     if leadloop is None:
         leadloop = max(nb, 5)
     if leadloop:
